@@ -32,7 +32,7 @@ def run(ctx, rep):
     rep.rule("C07-R1", "inclusion impl <= RFC at main/Q/L/F (modulo absorbed blank): no impl-only divergence", floor=4)
     G.check_side_conditions(rep, "C07-R1", res, where)
     divs = GM.divergences(res)
-    for cmp_ in res["engine"]["compare"]:
+    for cmp_ in [c for c in res["engine"]["compare"] if not c["id"].startswith("np:")]:
         n = sum(1 for d in cmp_["divergences"] if d["dir"] == "impl-only")
         rep.ok("C07-R1", "compared:%s" % cmp_["id"], where, "%d x %d states, %d product states explored exhaustively, %d impl-only divergence class(es)"
                % (cmp_["impl_states"], cmp_["rfc_states"], cmp_["product_states"], n))
@@ -44,7 +44,7 @@ def run(ctx, rep):
                     d["witness"], d["where"], k[1], k[2], (": " + G.hint(k)) if G.hint(k) else ""))
     rep.extra["filters_modelled"] = res["applied_filters"]
     rep.extra["parser_notes"] = res["parser_notes"]
-    rep.samples.extend({"rule": "C07-R1", "comparison": c["id"], "impl_states": c["impl_states"], "rfc_states": c["rfc_states"]} for c in res["engine"]["compare"])
+    rep.samples.extend({"rule": "C07-R1", "comparison": c["id"], "impl_states": c["impl_states"], "rfc_states": c["rfc_states"]} for c in res["engine"]["compare"] if not c["id"].startswith("np:"))
     r2(ctx, rep)
     r3(ctx, rep, res)
     typing(ctx, rep, only="C07-R4")
@@ -108,6 +108,13 @@ class ShapeEval:
         for k, v in shp:
             if k == t:
                 return v
+        if t.k == "proj":
+            # payload of a variant whose shape is known in depth: ("v", Variant, [field shapes])
+            s = self.shape_of(t.a[0], shp)
+            m = re.match(r".*::(\w+)\.(\d+)$", t.a[1])
+            if s is not None and m and s[0] == "v" and s[1] == m.group(1) and int(m.group(2)) < len(s[2]):
+                sub = s[2][int(m.group(2))]
+                return sub if isinstance(sub, tuple) else None
         return None
 
     def boolean(self, t, shp, depth=0):
@@ -180,7 +187,13 @@ class ShapeEval:
                 sel = tables.select(t.a[1], s)
                 out = set()
                 for i, how in sel:
+                    g = t.a[1][i][1]
+                    gb = self.boolean(g, shp, depth + 1) if g is not None else True
+                    if gb is False:
+                        continue
                     out |= self.result(t.a[1][i][2], shp, depth + 1)
+                    if gb is True and (how == "definite" or tables.pat_match(t.a[1][i][0], s) == tables.YES):
+                        break
                 return out or {"?"}
             out = set()
             for p, g, b in t.a[1]:
@@ -270,6 +283,23 @@ def typing(ctx, rep, only):
                             fname, sh, i + 1, "it" if verdict == "ok" else "some of them"))
                     else:
                         rep.ok("C06-R3", key, where, "accepted" if accepts else "ill-typed and rejected")
+                    if sh == "Test" and accepts:
+                        # the kinds of test the RFC allows here must each be accepted: relative and absolute queries everywhere,
+                        # function calls where a value or a logical is expected
+                        tv = dict(tables.variants_of(prog, M + "Test") or [])
+                        want = [v for v in ("RelQuery", "AbsQuery") if v in tv] + (["Function"] if pty in ("Value", "Logical") and "Function" in tv else [])
+                        for sub in want:
+                            shp2 = [(a_, (("v", "Test", [("v", sub, [tables.ANY] * tv[sub])]) if a_ is shp[i][0] else s_)) for a_, s_ in shp]
+                            r2 = se.result(body, shp2)
+                            k2 = "%s:%s" % (key, sub)
+                            if "?" in r2:
+                                rep.unrecognised("C06-R3", k2, where, "cannot evaluate acceptance of %s(arg %d: Test::%s): %s" % (fname, i, sub, r2))
+                            elif "Ok" not in r2:
+                                rep.bad("C06-R3", k2, where, "`%s` rejects %s as argument %d although RFC 9535 allows it there (e.g. `%s(%s)`)" % (
+                                    fname, {"RelQuery": "a relative query", "AbsQuery": "an absolute query", "Function": "a function call"}[sub], i + 1,
+                                    fname, {"RelQuery": "@.a", "AbsQuery": "$.a", "Function": "value(@.a)"}[sub]))
+                            else:
+                                rep.ok("C06-R3", k2, where, "accepted")
     if only != "C07-R4":
         return
     # result kinds in context: comparable gate and test-position gate
